@@ -91,6 +91,14 @@ def run(case):
         c, mapping = t.crop(sup, mode="intersection", returns_mapping=True)
         out["map_tl"] = segs_of(tb, c)
         out["mapping"] = [[tb.us(k), segs_of(tb, v)] for k, v in mapping.items()]
+        from harness.tlutil import assert_fresh
+        assert_fresh(tb, lambda: t.crop(sup, mode=("loose", "strict", "intersection")[len(case["t"]) % 3]), "crop()")
+        if not isinstance(sup, type(t)):
+            pass
+        else:
+            # the support itself is only read by crop: same segments afterwards, and its own support() still fresh
+            assert segs_of(tb, sup) == segs_of(tb, mk_sup(tb, case["sup"]))
+            assert_fresh(tb, lambda: sup.support(), "support() of a timeline that served as crop support")
         return out
     finally:
         tb.leave()
